@@ -30,11 +30,13 @@ def run(F, R):
     nonce_t = None
     if ap:
         bi, t = ap[0]
-        a = [terms.render(dec, dec.trace_op(x), W, N, transparent=T) for x in t["args"]]
+        from .. import optnorm
+        inl = lambda tm: optnorm.inline_all(W, dec, tm)   # a private formatting helper is the expression it wraps
+        a = [terms.render(dec, inl(dec.trace_op(x)), W, N, transparent=T) for x in t["args"]]
         R.check("C03-R1", "receiver", a[0] == "parse::<http::Uri>(get_uri(request))@Continue.0", a[0], "parameter appended to %s" % a[0][:100])
         R.check("C03-R1", "key", a[1] == "'cup2key'", a[1], "query key is %s" % a[1])
         R.check("C03-R1", "value", a[2] == "fmt('{0}:{1}', display(self.latest_public_key_id), display(new()))", a[2], "cup2key value is %s" % a[2][:120])
-        ft = terms.format_term(dec, dec.trace_op(t["args"][2]))
+        ft = terms.format_term(dec, inl(dec.trace_op(t["args"][2])))
         if ft and len(ft[1]) == 2:
             nonce_t = terms._unref(ft[1][1][1])
             key_t = terms._unref(ft[1][0][1])
